@@ -19,6 +19,7 @@ func copyAndLanes(id string) func(prog *Program, repo, tier string) ([]simpleObl
 		out := append(copyObligations(prog, id), laneObligations(prog, id)...)
 		out = append(out, storesViaObligations(prog, id)...)
 		out = append(out, unrolledObligations(prog, id)...)
+		out = append(out, noEscapeObligations(prog, id)...)
 		return append(out, readonlyObligations(prog, id)...), nil
 	}
 }
